@@ -18,6 +18,11 @@ def build(tier, seed):
         rshapes += [(2, 1, 0, 2, 1), (3, 1, 0, 0, 0), (3, 3, 2, 2, 2), (4, 2, 1, 0, 2), (2, 2, 0, 2, 2)]
     for rep, w, j, flen, dlen in rshapes:
         I.append(rcv("c16_rcv_n%d_w%d_j%d_f%d_d%d" % (rep - 1, w, j, flen, dlen), w, 2, j, flen, rep=rep, dlen=dlen, oracle=ro))
+    # the server's own sender facing a peer that acknowledges every copy: the N extra ACKs per block arrive stale; they
+    # are not failed receives (state: up to 5 such ACKs already seen in this window, then one more event)
+    for rep, w, j, flen in ([(2, 1, 0, 3), (4, 2, 1, 4)] if tier == "quick" else [(2, 1, 0, 3), (4, 2, 1, 4), (3, 1, 0, 2), (3, 3, 2, 6)]):
+        I.append(snd("c16_ack_every_copy_n%d_w%d_j%d_f%d" % (rep - 1, w, j, flen), w, 2, j, flen, rep=rep,
+                     oracle=so | omask("NOABORT", "RETRY"), r0=9))
     # N = 254 (repeat count 255): one block, lock-step, concrete ACK (control flow concrete)
     if tier == "thorough":
         I.append(snd("c16_snd_n254_w1", 1, 2, 0, 1, rep=255, oracle=so, events=[(K_ACK, 0, 0, 0)], tmo=5, b0=(1, 1), unw=258, timeout=2400))
